@@ -11,6 +11,7 @@ from . import shim
 _real = socket.getaddrinfo
 log: List[Tuple[Any, Any]] = []
 table: Dict[str, str] = {}
+passthrough: set = set()        # names answered by the real resolver from local files (e.g. 'localhost'), no DNS involved
 default_ip: Optional[str] = None
 _installed = False
 strict = True
@@ -43,11 +44,17 @@ def _getaddrinfo(host: Any, port: Any, family: int = 0, type: int = 0, proto: in
                 return _real(host, port, family, type, proto, flags)     # numeric: no DNS involved
             except ValueError:
                 pass
+        if h in passthrough:
+            return _real(host, port, family, type, proto, flags)
         if strict and shim.active():
             # no DNS in the sandbox: answer at once what the real resolver would answer eventually
             raise socket.gaierror(socket.EAI_NONAME, 'Name or service not known (harness resolver)')
         return _real(host, port, family, type, proto, flags)
     p = int(port) if port is not None else 0
+    if not 0 <= p <= 65535:
+        # out-of-range service numbers: let the real resolver decide what the mapped (numeric, DNS-free) address gets, so the
+        # harness neither hides nor invents what the C library does with them (glibc reduces them modulo 65536)
+        return _real(ip, port, family, type or socket.SOCK_STREAM, proto, flags)
     if ':' in ip:
         return [(socket.AF_INET6, type or socket.SOCK_STREAM, proto or 6, '', (ip, p, 0, 0))]
     return [(socket.AF_INET, type or socket.SOCK_STREAM, proto or 6, '', (ip, p))]
@@ -67,5 +74,6 @@ def reset(mapping: Optional[Dict[str, str]] = None, default: Optional[str] = Non
     for k, v in (mapping or {}).items():
         table[k.lower()] = v
     default_ip = default
+    passthrough.clear()
     del log[:]
     return log
